@@ -568,3 +568,43 @@ def fam_store_status(tier, base):
 prop("C25", "store_status", "TLC-simulated sequences over one node and one workload: reports with positive / zero / negative TTL, same and changed values, TTL changes, entity removal and re-creation, time passing; acceptance and visibility judged after every step on both stores; non-trivial = status reports",
      ["etcd in real time on an embedded etcd: a status must be visible until 1.0 s before its lapse and gone 2.5 s after it (etcd revokes expired leases lazily); nothing is required in between",
       "redis on miniredis with FastForward (virtual time, no slack)", "a workload's status is read through GetWorkloadStatus and therefore only while the workload is recorded; after an entity is removed its status may or may not be visible until the next report"])
+
+
+# =========================================================================== Cluster: C10-C14, C20, C22 (single operation, fault / crash placements)
+@family("cluster")
+def fam_cluster(tier, base):
+    q = tier == "quick"
+    cfg = "MC_ClusterScen_quick.cfg" if q else "MC_ClusterScen_thorough.cfg"
+    r = verif.model_check("MC_ClusterScen", cfg, timeout=3000, workers=1)
+    inputs, trace = base + ".in.ndjson", base + ".trace.ndjson"
+    every = 3 if q else 2
+    sel = []
+    for x in dict.fromkeys(r.tagged("INPUT")):
+        d = json.loads(x)
+        d["every"] = every
+        sel.append(json.dumps(d))
+    with open(inputs, "w") as f:
+        f.write("\n".join(sel) + "\n")
+    b = verif.build_driver("cluster")
+    verif.run_driver_sharded(b, "TestClusterFaults", inputs, trace, shards=14, timeout=7000)
+    os.remove(inputs)
+    viols, tr = verif.validate_trace("Trace_Cluster", "Trace_Cluster.cfg", trace, heap="16g")
+    lines = verif.read_lines(trace)
+    cnt = lambda s: sum(1 for ln in lines if s in ln)
+    runs, faults, crashes = cnt('"ev":"Run"'), cnt('"class":"injected"'), cnt('"ev":"Crash"')
+    return dict(trace=trace, viols=viols, states=r.distinct, transitions=r.generated, configs=[cfg, "Trace_Cluster.cfg"], window=80,
+                traces={"*": runs, "C14": crashes}, samples={"*": [json.loads(x) for x in lines[:2]]},
+                nontrivial={"C10": runs, "C11": faults, "C12": cnt('"kind":"create","op":"op"'), "C13": cnt('"obs":['), "C14": crashes, "C20": cnt('"target":"lock"'), "C22": runs},
+                notes="%d TLC-enumerated scenarios (node layout x pre-deployed workloads x operation); each run fault-free and then with every %s single-fault / crash placement among its external calls: %d runs, %d injected failures, %d crashes followed by recovery in a fresh core instance" % (len(sel), "%d-th" % every if every > 1 else "", runs, faults, crashes))
+
+
+_A_CL = ["real calcium.Calcium on an embedded etcd with the real cobalt manager + cpumem plugin and a real bbolt WAL; store, manager and WAL are wrapped through the verif hook, engines are stateful fakes substituted on every node/workload",
+         "external calls are serialised by the harness gate; a fault = the k-th external call returns an injected error without being performed; exactly one fault per run, so every later (compensating) call succeeds",
+         "a crash = at the k-th external call the instance stops for ever (all its later calls block without effect), its locks are released as lease expiry would, its WAL file is closed; a new Calcium on the same store and WAL file then runs DisasterRecover (simulated crash, same process)",
+         "share base 100; nodes of 2-4 cores, memory in abstract units; requests: unbound 0.5 cpu, bound 1.0 / 0.5 / 3.0 cpu"]
+prop("C10", "cluster", "every scenario x every sampled single-fault placement; after each run (and in each pre-state, itself built through the API) every node's usage is compared with the sum of its recorded workloads per component, with capacity, and with the node resource check; non-trivial = runs", _A_CL)
+prop("C11", "cluster", "same runs; an operation (or per-workload part) that reports failure must leave pods, nodes, capacity, usage and workloads as before; non-trivial = runs with an injected failure", _A_CL)
+prop("C12", "cluster", "create scenarios (4 strategies x counts x requests x include lists x pre-states) fault-free and with every sampled fault: stream closes, one error or one message per planned instance (planned = sum of the allocation calls), each success recorded + started + placed as reported, failures leave nothing; non-trivial = create runs", _A_CL)
+prop("C13", "cluster", "create scenarios: after EVERY external call of the deployment the real deploy status and the recorded workloads are read (under the gate) and compared with prior + planned; after return no marker of the application remains; non-trivial = observations", _A_CL + ["etcd store only in this family; the redis counting rule is covered by the store family (C23) through the same reference"])
+prop("C14", "cluster", "create / remove / replace scenarios with a crash before each sampled external call, then recovery in a fresh instance; non-trivial = crashes", _A_CL)
+prop("C22", "cluster", "referential consistency predicates on every pre- and post-state of the runs (sequential and faulted); concurrent histories are the cluster_conc family; non-trivial = runs", _A_CL)
